@@ -105,6 +105,17 @@ def run(res, tier, replay):
                 want = [(pre + m.name.decode(), hashlib.md5(m.data).hexdigest()) for m in sel]
                 if got != want or r.returncode != 0: bad("-t from %s reports %s, expected %s (exit %d)" % (os.path.basename(start), got[:2], want[:2], r.returncode), detail, "c17:test")
                 if any(os.path.exists(os.path.join(work, m.name.decode())) for m in sel): bad("-t wrote a file", detail, "c17:test-writes")
+                # several -F options: the members selected are the union of what each pattern selects, whatever the order of the options and
+                # whether one pattern is a prefix of, equal to, or longer than another
+                if pat and start_path == paths[0]:
+                    for fl2 in ([pat + "?", pat], [pat, pat + "?"], [pat, pat], ["zz-nothing*", pat], [pat[:-1] if len(pat) > 1 else pat, pat], [pat + "zz", pat]):
+                        sel2 = [m for m in members if any(fnmatch.fnmatchcase(m.name.decode().lower(), q.lower()) for q in fl2)]
+                        fo2 = [x for q in fl2 for x in ("-F", q)]
+                        r = subprocess.run([exe, "-l"] + fo2 + [start], capture_output=True, env=env, timeout=60, cwd=work); nruns += 1
+                        rows = re.findall(r"^\s*(\d+) \| (\d\d)\.(\d\d)\.(\d{4}) (\d\d):(\d\d):(\d\d) \| (.*)$", r.stdout.decode("latin1"), flags=re.M)
+                        if [x[7] for x in rows] != [m.name.decode() for m in sel2] or r.returncode != 0: bad("-l -F %s -F %s lists %s, expected %s (exit %d)" % (fl2[0], fl2[1], [x[7] for x in rows][:4], [m.name.decode() for m in sel2][:4], r.returncode), detail, "c17:multi-filter")
+                        r = subprocess.run([exe, "-p", "-q"] + fo2 + [start], capture_output=True, env=env, timeout=120, cwd=work); nruns += 1
+                        if r.stdout != b"".join(m.data for m in sel2) or r.returncode != 0: bad("-p -F %s -F %s wrote %d bytes, expected %d (exit %d)" % (fl2[0], fl2[1], len(r.stdout), sum(len(m.data) for m in sel2), r.returncode), detail, "c17:multi-filter")
                 # -p
                 r = subprocess.run([exe, "-p", "-q"] + dopt + fopt + [start], capture_output=True, env=env, timeout=120, cwd=work); nruns += 1
                 if r.stdout != b"".join(m.data for m in sel) or r.returncode != 0: bad("-p from %s wrote %d bytes, expected %d (exit %d)" % (os.path.basename(start), len(r.stdout), sum(len(m.data) for m in sel), r.returncode), detail, "c17:pipe")
